@@ -50,6 +50,14 @@ CHECKS = {
         "shape/chunk agreement, lookup inverse, re-based crops and parent-crop equality on the logged tables. For block assembly TLC enumerates layouts x ALL subsets of present blocks x ALL windows "
         "(dtype / axis / fill variants) and compares the array returned by the real BlockAssembler with Extract of a mosaic of unique pixel ids.",
    ref="5/C04", note=TB + "empty rectangles (a zero dimension) are outside the statement and not generated; bool blocks carry id parity only"),
+ "C16": dict(
+   technique="TLA+ rectangle-algebra model (GridAlgebra) with set-theoretic laws checked by TLC over all pairs/triples; results of the real GeoBox / BoundingBox operations validated by TLC on the integer lattice",
+   text="GeoBoxes on a common grid are pixel rectangles; TLC checks commutativity, associativity, minimal cover, intersection = pixel-set intersection and overlap-roi index semantics "
+        "for the model over all pairs and triples of a window, and emits the cases. The real |, &, overlap_roi, union/intersection_conservative, snap_to and enclosing are run on six base grids "
+        "(north-up, mirrored, flipped, 90 degrees, Pythagorean-rotated, non-square pixels) and TLC judges the logged (shape, affine) against first-principles pixel-set predicates; incompatible "
+        "grids (sub-pixel offsets, pixel size, orientation, CRS) must be rejected with ValueError; snap perturbations straddle half a pixel; enclosing regions lie on the quarter-pixel lattice in the "
+        "same and in an exact-translation CRS; BoundingBox lattice laws are evaluated on logged results for all triples of a window.",
+   ref="5/C16", note=TB + "enclosing regions whose edges coincide with pixel edges are not generated (floating-point floor/ceil there is not constrained by the statement); exact tmerc CRS family for the cross-CRS part"),
 }
 
 NOT_YET = "check not built yet (work in progress); see DESIGN.md"
